@@ -320,7 +320,13 @@ impl Online {
             _ => {}
         }
         match ev {
-            Ev::Start { node, inc, learner } => {
+            Ev::Start { node, inc, learner, applied } => {
+                // what a restarted node recovered counts as applied by this incarnation: the
+                // next entry it applies follows it, and a snapshot installed below it is older
+                // than the state the node already has
+                if *applied > 0 {
+                    self.last_applied.insert((*node, *inc), *applied);
+                }
                 if *learner {
                     self.started_as_learner.insert(*node);
                 } else {
@@ -1036,7 +1042,10 @@ impl Online {
         let commit = self.commit_index.get(&node).cloned().unwrap_or(0);
         let Some(ep) = self.net.as_ref().and_then(|n| n.endpoint(node)) else { return };
         let (first, last) = (ep.log.first().max(1), ep.log.last());
-        let mut found: Option<u64> = None;
+        // every promotion entry in the node's log that names it (a node may be named by more
+        // than one: a later batch can repeat it); the promotion is justified by any of them
+        // that is committed
+        let mut found: Vec<u64> = Vec::new();
         let mut i = last;
         let mut steps = 0;
         while i >= first && steps < 20_000 {
@@ -1044,8 +1053,7 @@ impl Online {
                 && kind == "promote"
                 && ids.contains(&node)
             {
-                found = Some(i);
-                break;
+                found.push(i);
             }
             if i == 0 {
                 break;
@@ -1053,11 +1061,11 @@ impl Online {
             i -= 1;
             steps += 1;
         }
-        let committed_globally = found.is_some_and(|i| self.committed.contains_key(&i));
-        match found {
-            Some(idx) if idx <= commit || committed_globally => {}
+        let justified = found.iter().any(|i| *i <= commit || self.committed.contains_key(i));
+        match found.iter().min() {
+            Some(_) if justified => {}
             Some(idx) => {
-                self.find(t, "C27", "learner-became-voter-before-promotion-committed", json!({"node": node, "to_role": to, "promotion_index": idx, "node_commit": commit}));
+                self.find(t, "C27", "learner-became-voter-before-promotion-committed", json!({"node": node, "to_role": to, "promotion_index": idx, "promotion_entries_naming_the_node": found, "node_commit": commit}));
             }
             None => {
                 if first <= 1 {
